@@ -352,9 +352,25 @@ func c13Random(c *fw.Ctx, idx int) {
 	g := []int64{3, 5, 17, 1000, 1 << 20}[r.Intn(5)]
 	rp := func() ipt { return ipt{int64(r.Intn(int(g))), int64(r.Intn(int(g)))} }
 	pts := make([]ipt, 0, n)
-	kind := r.Intn(12)
-	names := []string{"coincident", "two-values", "collinear-axis", "collinear-general", "circle", "clustered", "uniform", "few-extremes", "octagon-degenerate", "octagon-degenerate", "lune-chain", "lune-chain"}
+	kind := r.Intn(13)
+	names := []string{"coincident", "two-values", "collinear-axis", "collinear-general", "circle", "clustered", "uniform", "few-extremes", "octagon-degenerate", "octagon-degenerate", "lune-chain", "lune-chain", "convex-arc"}
 	switch kind {
+	case 12:
+		// every point is a hull vertex and none lies inside the octagon of extreme
+		// points: k -> (k, k*k) and the like, 30..200 points
+		m := r.Range(30, 200)
+		off := int64(r.Range(-100, 100))
+		fx, tr := r.Bool(), r.Bool()
+		for k := int64(0); k < int64(m); k++ {
+			p := ipt{k + off, k * k}
+			if fx {
+				p.y = -p.y
+			}
+			if tr {
+				p.x, p.y = p.y, p.x
+			}
+			pts = append(pts, p)
+		}
 	case 10, 11:
 		// a hull of m vertices on a large circle; between two of them, just inside
 		// the hull but outside the octagon of extreme points, a long chain of k
@@ -492,6 +508,38 @@ func c13Random(c *fw.Ctx, idx int) {
 	sh := make([]ipt, len(pts))
 	for i, j := range perm {
 		sh[i] = pts[j]
+	}
+	// one input in four arrives in an order: sorted by (x, y) or by (y, x), up or
+	// down, with or without its duplicates, and perhaps with one earlier point
+	// repeated at the very end
+	if r.Chance(1, 4) {
+		byYX, down := r.Bool(), r.Bool()
+		sort.Slice(sh, func(i, j int) bool {
+			a, b := sh[i], sh[j]
+			if byYX {
+				a.x, a.y, b.x, b.y = a.y, a.x, b.y, b.x
+			}
+			if down {
+				a, b = b, a
+			}
+			return a.x < b.x || a.x == b.x && a.y < b.y
+		})
+		if r.Bool() {
+			w := sh[:0]
+			for i, p := range sh {
+				if i == 0 || p != sh[i-1] {
+					w = append(w, p)
+				}
+			}
+			sh = w
+			c.Count("input_strictly_sorted")
+		} else {
+			c.Count("input_sorted")
+		}
+		if len(sh) > 2 && r.Chance(1, 3) {
+			sh = append(sh, sh[r.Range(0, len(sh)-2)])
+			c.Count("input_sorted_with_an_earlier_point_repeated_at_the_end")
+		}
 	}
 	c.Count("kind_" + names[kind])
 	c13Check(c, c13Layouts[r.Intn(4)], sh, r.Intn(3), names[kind])
